@@ -447,7 +447,15 @@ class MementoFunction(MementoFunctionBase):
             entry = MementoFunction._global_fn_version_cache[
                 self.qualified_name_without_version
             ]
-            if entry.as_of_generation == MementoFunction._global_fn_generation:
+            # The cache is keyed by name, but clones, wrappers and re-definitions are separate
+            # function objects with the same name. An entry written through another object says
+            # nothing about whether the rules of this one are still current (a wrapper created
+            # with register_fn=False has none yet), so it is only a shortcut for the object whose
+            # version it holds; anyone else recomputes.
+            if (
+                entry.as_of_generation == MementoFunction._global_fn_generation
+                and entry.version == self._calculated_version
+            ):
                 changed_rules = [rule for rule in self._hash_rules if rule.did_change()]
                 if len(changed_rules) > 0:
                     # Global variables or local functions may have changed since the last time
@@ -460,8 +468,6 @@ class MementoFunction(MementoFunctionBase):
                         )
                     )
                 else:
-                    if self._calculated_version is None:
-                        self._calculated_version = entry.version
                     if self._fn_reference is None:
                         self._update_fn_reference()
                     return
